@@ -121,7 +121,7 @@ def main():
                 rejected += 1
             for m in r["mismatches"]:
                 chk.violation(m["key"], "%s: %s [%d events; steering: %s]" % (r["config"], m["detail"], m["count"], m["steer"] or "-"),
-                              {"config": r["config"], **m})
+                              {"config": r["config"], "nme": r.get("nme"), **m})
     chk.require(accepted >= (200 if not only else 1), "only %d accepted configurations compared" % accepted)
     chk.coverage.update({
         "programs": accepted,
